@@ -497,6 +497,26 @@ func (b *builder) buildC03() {
 
 // C05: accepted messages with repeated / multi-value headers.
 func (b *builder) buildC05() {
+	if b.r.Chance(1, 4) {
+		// accepted messages on a pooled object with caller arrays, behind abandoned / failed ones
+		cfg := b.msgCfg()
+		cfg.HdrCap = b.r.PickInt(-1, 12, 40)
+		cfg.ConCap = b.r.PickInt(2, 4, 10)
+		var plans []connPlan
+		t := int64(0)
+		for i := b.r.Range(2, 4); i > 0; i-- {
+			c := Conn{Cfg: cfg, Obj: 0, ResetBy: b.r.Intn(2), Compact: b.r.Chance(1, 2)}
+			o := gen.MsgOpts{Request: -1, CL: gen.CLExact, BodyMax: 60, MaxHdrs: b.r.PickInt(0, 6, 12)}
+			b.msgStream(&c, 10, o, 2)
+			limitStream(&c)
+			s := c.Stream()
+			b.sc.Conns = append(b.sc.Conns, c)
+			plans = append(plans, connPlan{conn: len(b.sc.Conns) - 1, cuts: b.cuts(s, b.pickSched(len(s))), end: b.r.PickInt(endAbort, endAbort, endEOFEarly, endEOFWith, endNone), t0: t})
+			t += 100000000
+		}
+		b.schedule(plans)
+		return
+	}
 	c := Conn{Cfg: b.msgCfg(), Obj: -1, Compact: b.r.Chance(1, 2)}
 	c.Cfg.HdrCap = b.r.PickInt(-1, 40, 40, 40, 5, 0)
 	c.Cfg.ConCap = b.r.PickInt(-1, 10, 10, 2, 0)
